@@ -113,7 +113,7 @@ def gauge_case(inp):
     site=H + "height_func_list",
     bound="all labelled graphs on n<=5 vertices (1+2+8+64+1024) in the standard generating set X_i Z_N(i); quick: "
     "n<=4 exhaustive + 300 seeded graphs on 5..7 vertices; thorough: n<=5 exhaustive + 3000 seeded graphs on 6..9",
-    exhaustive=True,
+    exhaustive=False,  # exhaustive part + seeded part, see bound
     clause="for a graph state the height is the GF(2) rank of the adjacency block joining the two sides",
 )
 def graph_rank_case(inp):
@@ -191,7 +191,7 @@ def n_emitters_case(inp):
     site="graphiq.solvers.time_reversed_solver:TimeReversedSolver.__init__",
     bound="all labelled graphs n<=4 (thorough n<=5; isolated vertices included) given as graph / stabilizer / "
     "density-matrix QuantumState, and seeded non-sorted vertex orders for graph input",
-    exhaustive=True,
+    exhaustive=False,  # exhaustive part + seeded part, see bound
     clause="the deterministic solver allocates exactly max(height) emitters - the minimum for the given emission order",
 )
 def solver_n_emitter_case(inp):
@@ -233,7 +233,7 @@ S.item(
     site="graphiq.solvers.time_reversed_solver:TimeReversedSolver.solve",
     bound="all labelled graphs without isolated vertex n<=4 (thorough n<=5, plus 2000 seeded graphs on 6 vertices) x "
     "graph / stabilizer / density-matrix input, stabilizer compiler",
-    exhaustive=True,
+    exhaustive=False,  # exhaustive part + seeded part, see bound
     clause="emits each photon exactly once (one emitter->photon CNOT per photon); circuit has max(height) emitters",
 )(emits_once_case)
 
@@ -362,7 +362,7 @@ def run(tier, seed):
             seen.add(key)
             once.append({"n": 6, "edges": edges, "rep": "g", "comp": "stab"})
     once_iso = [c for c in C02.isolated_cases(tier) if c["rep"] == "g" and c["comp"] == "stab"]  # fixed list (known finding C02-F1)
-    S.max_failures_per_item = 400
+    S.max_failures_per_item = 120  # record every failing input of the fixed isolated-vertex list (29 / 72)
     nt = lambda i: len(i["edges"]) > 0
     S.map("solver.n_emitter", alloc, nontrivial=nt)
     S.map("solver.emits_once", once, nontrivial=nt)
